@@ -309,6 +309,11 @@ def canon(system, hierarchy_only: bool) -> Dict[str, Any]:
             e["parent"] = o.parent.fullName() if o.parent else None
             if isinstance(o, model.Inheritable):
                 e["docsources"] = [x.fullName() for x in o.docsources()]
+            if isinstance(o, model.Class):
+                try:
+                    e["mro_resolved"] = [c.fullName() for c in o.mro(True) if isinstance(c, model.Documentable)]
+                except Exception:
+                    e["mro_resolved"] = None
         if e or not hierarchy_only:
             res[k] = e
     return res
@@ -333,9 +338,19 @@ def inheritance_cycle(system) -> bool:
     from pydoctor import model
     color = {}
 
+    def bases_of(c):
+        # resolved bases, and — when the hierarchy is cyclic pydoctor gives up resolving some of them — the classes
+        # registered under the names the base expressions expand to
+        out = [b for b in c.baseobjects if b is not None]
+        for n in list(getattr(c, "_initialbases", []) or []) + list(c.bases):
+            b = system.allobjects.get(n)
+            if isinstance(b, model.Class) and all(b is not x for x in out):
+                out.append(b)
+        return out
+
     def dfs(c):
         color[id(c)] = 1
-        for b in c.baseobjects:
+        for b in bases_of(c):
             if b is None:
                 continue
             if color.get(id(b)) == 1 or (color.get(id(b)) is None and dfs(b)):
@@ -389,6 +404,11 @@ def diff_sig(a: Dict[str, Any], b: Dict[str, Any], moved: set = frozenset()) -> 
                         pairs = [(x, y) for x, y in zip(a[k][f], b[k][f]) if x != y]
                         if pairs and all((x is None) != (y is None) and ((x or y) in moved) for x, y in pairs):
                             return "moved-base-unresolved", f"{k}: bases {a[k][f]!r} vs {b[k][f]!r}"
+                    if f == "mro" and a[k].get("bases") == b[k].get("bases") and a[k].get("mro_resolved") == b[k].get("mro_resolved") \
+                            and a[k].get("mro_resolved") is not None:
+                        # same documented classes in the same order: only the NAME shown for a base that is not
+                        # documented differs
+                        return "unresolved-base-name-differs", f"{k}: {f} {a[k].get(f)!r} vs {b[k].get(f)!r}"
                     return f + "-differs", f"{k}: {f} {a[k].get(f)!r} vs {b[k].get(f)!r}"
     return "?", "?"
 
